@@ -120,13 +120,19 @@ type loadResult struct {
 	MinLimit  int
 	LimitErrs int
 	Removed   []string
+	// pruning loads: ids the callback returned as overlaps of ANOTHER region before their own turn came
+	// (the load deletes their records: they need not be delivered any more), and ids that were delivered
+	// although this very load had already deleted their record
+	PrunedBeforeTurn      map[uint64]bool
+	DeliveredAfterDeleted []uint64
 }
 
 type deliveryAbort struct{}
 
 type runner struct {
-	r         *ev.Run
-	minimized map[string]bool // violation keys whose witness was already reduced once
+	r              *ev.Run
+	minimized      map[string]bool // violation keys whose witness was already reduced once
+	pruneKeySuffix string          // appended to the pruning-clause keys (names the history family that led there)
 }
 
 // minOnce reduces the failing id set the first time a violation key is seen.
@@ -193,7 +199,7 @@ func (x *runner) loadStores(b *backend, expect int) *loadResult {
 
 // loadRegions runs LoadRegions / LoadRegionsOnce; cb (may be nil) is the cache callback.
 func (x *runner) loadRegions(b *backend, api string, expect int, cb func(*core.RegionInfo) []*core.RegionInfo) *loadResult {
-	res := &loadResult{API: api, Count: map[uint64]int{}, First: map[uint64]item{}}
+	res := &loadResult{API: api, Count: map[uint64]int{}, First: map[uint64]item{}, PrunedBeforeTurn: map[uint64]bool{}}
 	b.pw.begin(200 + 4*expect)
 	f := func(ri *core.RegionInfo) []*core.RegionInfo {
 		id := ri.GetID()
@@ -206,8 +212,17 @@ func (x *runner) loadRegions(b *backend, api string, expect int, cb func(*core.R
 		if res.Delivered > 3*expect+200 {
 			panic(deliveryAbort{})
 		}
+		if res.PrunedBeforeTurn[id] {
+			res.DeliveredAfterDeleted = append(res.DeliveredAfterDeleted, id)
+		}
 		if cb != nil {
-			return cb(ri)
+			ov := cb(ri)
+			for _, o := range ov {
+				if o.GetID() != id && res.Count[o.GetID()] == 0 {
+					res.PrunedBeforeTurn[o.GetID()] = true
+				}
+			}
+			return ov
 		}
 		return nil
 	}
@@ -290,6 +305,10 @@ func (x *runner) judgeLoad(sp Spec, kind string, res *loadResult, must map[uint6
 		r.Violation("load-delivers-item-twice:"+res.API, fmt.Sprintf("%s delivered %d item(s) more than once (e.g. id %d)", res.API, len(dups), firstN(dups, 1)[0]), wit)
 		return undelivered
 	}
+	if len(res.DeliveredAfterDeleted) > 0 {
+		wit["delivered_after_its_record_was_deleted"] = firstN(append([]uint64(nil), res.DeliveredAfterDeleted...), 20)
+		r.Violation("load-delivers-region-whose-record-it-deleted:"+res.API+x.pruneKeySuffix, fmt.Sprintf("%s delivered region %d although the callback had returned it as an overlap of an earlier region in the same load (its record was deleted by then): the record of a delivered region must exist", res.API, res.DeliveredAfterDeleted[0]), wit)
+	}
 	if res.Aborted {
 		r.Inconclusive("%s delivered more than 3n+200 items without duplicates (%s)", res.API, sp)
 		return undelivered
@@ -307,6 +326,11 @@ func (x *runner) judgeLoad(sp Spec, kind string, res *loadResult, must map[uint6
 	for id, it := range must {
 		c := res.Count[id]
 		if c == 0 {
+			if res.PrunedBeforeTurn[id] {
+				// the load itself removed it as an overlap of a region delivered before: not delivering it is right
+				r.Count("pruned_before_own_turn_not_delivered", 1)
+				continue
+			}
 			missing = append(missing, id)
 			undelivered[id] = true
 			continue
@@ -888,22 +912,22 @@ func (x *runner) checkPruned(sp Spec, b *backend, api string, res *loadResult, m
 		id := firstN(onlyStorage, 1)[0]
 		wit["only_in_storage"] = firstN(onlyStorage, 20)
 		wit["example"] = describe(id)
-		key := "prune-leftover-stays-in-storage"
+		key := "prune-leftover-stays-in-storage" + x.pruneKeySuffix
 		r.Violation(key, fmt.Sprintf("after %s(CheckAndPutRegion) %d region(s) are still in storage but not in the cache (e.g. id %d)", api, len(onlyStorage), id), wit)
 	}
 	if len(onlyCache) > 0 {
 		id := firstN(onlyCache, 1)[0]
 		wit["only_in_cache"] = firstN(onlyCache, 20)
 		wit["example"] = describe(id)
-		r.Violation("prune-deletes-region-kept-in-cache", fmt.Sprintf("after %s(CheckAndPutRegion) %d cached region(s) are gone from storage (e.g. id %d)", api, len(onlyCache), id), wit)
+		r.Violation("prune-deletes-region-kept-in-cache"+x.pruneKeySuffix, fmt.Sprintf("after %s(CheckAndPutRegion) %d cached region(s) are gone from storage (e.g. id %d)", api, len(onlyCache), id), wit)
 	}
 	if len(differ) > 0 {
 		wit["content_differs"] = firstN(differ, 20)
-		r.Violation("prune-storage-and-cache-content-differ", fmt.Sprintf("after %s(CheckAndPutRegion) %d region(s) differ between storage and cache", api, len(differ)), wit)
+		r.Violation("prune-storage-and-cache-content-differ"+x.pruneKeySuffix, fmt.Sprintf("after %s(CheckAndPutRegion) %d region(s) differ between storage and cache", api, len(differ)), wit)
 	}
 	if p := overlapPair(cachedList); p != nil {
 		wit["overlapping_pair"] = []interface{}{describe(p[0]), describe(p[1])}
-		r.Violation("prune-cache-has-overlapping-regions", fmt.Sprintf("after %s(CheckAndPutRegion) the cache holds overlapping regions %d and %d", api, p[0], p[1]), wit)
+		r.Violation("prune-cache-has-overlapping-regions"+x.pruneKeySuffix, fmt.Sprintf("after %s(CheckAndPutRegion) the cache holds overlapping regions %d and %d", api, p[0], p[1]), wit)
 	}
 	// deletions performed by the loader (observable on non-batching backends) must be what the callback reported
 	for _, k := range res.Removed {
